@@ -9,6 +9,7 @@ mod fam_aut;
 mod fam_cs;
 mod fam_lit;
 mod fam_lr;
+mod fam_mgr;
 mod fam_min;
 mod fam_re;
 mod fam_store;
@@ -47,6 +48,7 @@ fn main() {
         "lr" => fam_lr::run(&mut t, &mut rng, thorough),
         "cp" => fam_cp::run(&mut t, &mut rng, thorough),
         "min" => fam_min::run(&mut t, &mut rng, thorough),
+        "mgr" => fam_mgr::run(&mut t, &mut rng, thorough),
         "re" => fam_re::run(&mut t, &mut rng, thorough),
         "str" => fam_str::run(&mut t, &mut rng, thorough),
         _ => {
